@@ -174,6 +174,14 @@ def gen(tier, seed, sp_factory=None):
             law = build(sh, carrier, with_eq, lawful=True)
         sp = sp_factory(n) if sp_factory else None
         mods.append(emit(t, f'm{n:04d}', cfgid, sp=sp, law_t=law))
+    # the same requests as generic types (type + const parameter, where-clause) instantiated through an alias
+    from . import model
+    model.TYPE_WRAP = model.generic_header_wrap
+    try:
+        for k, (sh, carrier, with_eq) in enumerate([(('struct', [('named', ['p', 'i', 'm'])]), 'PartialEq', False), (('enum', [('tuple', ['p', 'm', 'q']), ('named', ['i', 'p']), ('unit', [])]), 'Eq', True)]):
+            mods.append(emit(build(sh, carrier, with_eq), f'm{len(mods):04d}', f'{S.shape_id(sh)}/carrier={carrier}/generic header <G, const N> where G: Copy at <u8, 3>'))
+    finally:
+        model.TYPE_WRAP = None
     mods += special_modules(len(mods))
     return mods
 
